@@ -232,6 +232,17 @@ func UFU64(name string, args ...uint64) uint64 {
 	return h
 }
 
+// UFX is an uninterpreted function of mixed arguments ([]byte, *big.Int,
+// integers, bool) under the engine; natively a fixed deterministic function of
+// the rendered arguments.
+func UFX(name string, outLen int, args ...interface{}) []byte {
+	bs := make([][]byte, len(args))
+	for i, a := range args {
+		bs[i] = []byte(render(a))
+	}
+	return UF("x:"+name, outLen, bs...)
+}
+
 func BigEq(a, b *big.Int) bool { return a.Cmp(b) == 0 }
 
 // ---------------------------------------------------------------------------
